@@ -255,7 +255,7 @@ func (r *Replayer) Run(idx int, b *Behaviour) error {
 			if st.Op == "add" && err == nil && h != nil && r.Level > 0 {
 				r.checkReturned(k, c, st.ID, h)
 			}
-			if st.Op == "add" && got == st.Res && (got == "L" || got == "S" || got == "O") && os.Getenv("VERIF_METRICS") == "1" {
+			if st.Op == "add" && got == st.Res && (got == "L" || got == "S" || got == "O") && (r.cur+k)%4 == 0 && os.Getenv("VERIF_METRICS") == "1" {
 				r.checkMetrics(k, c, &st)
 			}
 		case "restart":
